@@ -18,6 +18,36 @@ REGISTRY = {
         engine="E3 flow + E7 who-may-call",
         ref="DESIGN.md §4 C13",
     ),
+    "C01": dict(
+        text="Decided for every keypoint array / NaN pattern / size / stride because they are facts of data flow and of the "
+        "expression's algebraic shape: flow-sensitive NaN taint (with function summaries) proves that with NaN keypoints "
+        "nothing NaN leaves make_confmaps, make_multi_confmaps, generate_*confmaps or the DataPipe generators (scrub after "
+        "the exp, before the max, fill 0); sign/interval evaluation proves values in [0,1] for sigma>0; at all 5 producer "
+        "call sites the spread is sigma * the very stride that built the grid, at all 12 dataset/streaming/pipeline call "
+        "sites sigma and output_stride come from one confmap head config; the grid is arange(0, size, stride) with "
+        "x<->width/last axis and y<->height/axis -2 at the definition and every call site; the multi-instance reduction "
+        "is a running maximum from zeros over every instance.",
+        note="Trusted: ast, networkx, nan_to_num/maximum/exp facts. Assumes sigma>0, stride>0. Not decided: the exact value "
+        "exp(-d^2/2(sigma*stride)^2), 'largest at the nearest cell', the output shape arithmetic.",
+        technique="NaN taint dataflow + sign/interval abstract evaluation + call-site unit/axis agreement rules",
+        engine="E4a taint + E4c sign + E7 structural",
+        ref="DESIGN.md §4 C01",
+    ),
+    "C05": dict(
+        text="NaN taint with missing endpoints tainted and the division by the edge norm as a NaN source (0/0 of a "
+        "zero-length edge, with a positive control that the source is seen): the per-instance field is scrubbed before it is "
+        "added and nothing NaN is returned; the accumulator is zeros updated by += once per instance; the weight is "
+        "gaussian_pdf in [0,1] of a non-negative squared distance with the projection clamped to the segment and a "
+        "denominator bounded away from 0; direction = (destination - source)/norm with sources/destinations = columns 0/1 "
+        "of edge_inds, field = weight x unit vector laid out (edges, 2, H, W) and flattened edge-major; every "
+        "dataset/streaming/pipeline call site passes flatten_channels=True, the skeleton's edge_inds and the PAF head's "
+        "own sigma/stride.",
+        note="Trusted: ast, networkx, clamp/exp facts. Not decided: unit length numerically, monotonicity of the weight with "
+        "distance, the in-image filter, channel numbering against the reader (pinned by tests).",
+        technique="NaN taint dataflow + sign/interval evaluation + structural direction/layout rules",
+        engine="E4a taint + E4c sign + E7 structural",
+        ref="DESIGN.md §4 C05",
+    ),
     "C08": dict(
         text="Necessary structural conditions of 'grouping terminates with a partition', decided for every input because "
         "they are facts about data flow, not values: inter-procedural taint shows which infinite cost constants can "
